@@ -524,8 +524,7 @@ fn mm_value(rng: &mut Xoshiro256PlusPlus, regime: usize) -> (f64, i64, bool) {
 
 fn mm_log(x: f64) -> serde_json::Value {
     // what the real object reports, as the integer the trace specification compares: +-inf are
-    // +-2^30, every finite value fed is an integer; anything else (NaN, a fraction) is logged as
-    // a string no specification value equals
+    // +-2^30, every finite value fed is an integer
     if x == f64::INFINITY {
         json!(TRACE_INF)
     } else if x == f64::NEG_INFINITY {
@@ -533,7 +532,9 @@ fn mm_log(x: f64) -> serde_json::Value {
     } else if x.is_finite() && x == x.trunc() && x.abs() < 1e9 {
         json!(x as i64)
     } else {
-        json!(format!("{:?}", x))
+        // NaN, a fraction, a huge value: an integer no specification value equals (TLC compares
+        // integers only with integers), so that the event is rejected rather than unreadable
+        json!(TRACE_INF + 7)
     }
 }
 
